@@ -1019,3 +1019,51 @@ Proof.
   unfold run. cbn [fold_left]. fold (run bulk (step bulk st s) ss).
   eapply F_cons; [apply step_has_effect | apply IH].
 Qed.
+
+(* ------------------------------------------------------------------ each reified group sits on ITS OWN new blank *)
+Lemma Forall2_weaken : forall {A B} (R R' : A -> B -> Prop) l l', (forall a b, R a b -> R' a b) -> Forall2 R l l' -> Forall2 R' l l'.
+Proof. intros A B R R' l l' H F. induction F; constructor; auto. Qed.
+
+Lemma produced_groups : forall bs draw i w gs i', produced bs draw i w gs i' ->
+  Forall2 (fun cr g => exists k, i <= k /\ group_of bs (fst cr) (snd cr) (draw k) g) w gs.
+Proof.
+  intros bs draw i w gs i' H. induction H as [i | i c r g w gs i' R G P IH | i c r g w gs i' R G P IH].
+  - constructor.
+  - constructor; [exists i; split; [lia | exact G] | exact IH].
+  - constructor; [exists i; split; [lia | exact G]|].
+    eapply Forall2_weaken; [|exact IH]. intros [c' r'] g' [k [Hk Hg]]. exists k. split; [lia | exact Hg].
+Qed.
+
+Lemma Forall2_nth_error : forall {A B} (R : A -> B -> Prop) l l' n b, Forall2 R l l' -> nth_error l' n = Some b ->
+  exists a, nth_error l n = Some a /\ R a b.
+Proof.
+  intros A B R l l' n b H. revert n. induction H as [|x y l l' Hxy H IH]; intros n Hn; [destruct n; discriminate|].
+  destruct n as [|n]; cbn in *; [inversion Hn; subst; exists x; auto | apply IH; exact Hn].
+Qed.
+
+Theorem reified_blank_is_private : forall st tmpl rows draw gs i',
+  fresh_supply (old_ids st tmpl rows) draw ->
+  produced (output_bindings tmpl) draw 0 (list_prod tmpl rows) gs i' ->
+  forall n g c r, nth_error gs n = Some g -> nth_error (list_prod tmpl rows) n = Some (c, r) -> cRest c <> [] ->
+  exists b, (forall t, In t g -> subject_of t = Blank b) /\
+            ~ In b (store_blanks st) /\
+            (forall n' g' t', n' <> n -> nth_error gs n' = Some g' -> In t' g' -> ~ mentions b t').
+Proof.
+  intros st tmpl rows draw gs i' Hf Hp n g c r Hg Hw HR.
+  pose proof (produced_groups _ _ _ _ _ _ Hp) as F.
+  destruct (Forall2_nth_error _ _ _ n g F Hg) as [[c' r'] [Hw' [k [_ G]]]]. rewrite Hw in Hw'. inversion Hw'; subst c' r'. cbn in G.
+  exists (draw k). split; [exact (group_of_subjects _ _ _ _ _ G HR)|].
+  assert (Hnew : ~ In (draw k) (old_ids st tmpl rows)) by (destruct Hf as [Hf _]; apply Hf).
+  split; [intro X; apply Hnew; unfold old_ids; apply in_app_iff; left; exact X|].
+  intros n' g' t' Hne Hg' Ht' M.
+  (* the group itself mentions its blank: its first triple has it as subject *)
+  assert (Hmine : exists t, In t g /\ mentions (draw k) t).
+  { destruct G as [t R E | t es R E Fes]; [congruence|]. destruct t as [[s p] o]. eexists. split; [left; reflexivity|].
+    unfold mentions, triple_blanks. cbn. left. reflexivity. }
+  destruct Hmine as [t [Ht Mt]].
+  assert (Hold : forall c0 r0, In (c0, r0) (list_prod tmpl rows) -> incl (cc_blanks c0 ++ row_blanks r0) (old_ids st tmpl rows)).
+  { intros c0 r0 Hin. apply in_prod_iff in Hin. destruct Hin as [Hc Hr]. unfold old_ids. intros x Hx.
+    apply in_app_iff in Hx. apply in_app_iff. right. apply in_app_iff.
+    destruct Hx as [Hx|Hx]; [left | right]; apply in_flat_map; eexists; split; eassumption. }
+  apply (produced_sep _ _ _ _ _ _ _ Hp Hf Hold n n' g g' (draw k) t t'); auto.
+Qed.
